@@ -311,6 +311,56 @@ extern "C" void h_short_after_mutation() {
 #endif
 }
 
+/* Representation invariant of the short-string cache: whenever the cache counts as valid
+   (h_string non-empty and sh == h) the cached string IS the short string of h.  Every
+   operation must preserve it from EVERY invariant state - this is what makes the short-string
+   law hold after any history of assignments, copies, ^=, clear and getString calls. */
+static void any_inv_state(hash_t &x) {
+  for (int i = 0; i < 8; ++i) x.h[i] = nondet_int();
+  x.initialized = nondet_bool();
+  int kind = nondet_int(); __CPROVER_assume(0 <= kind && kind <= 2);
+  if (kind == 0) {                       /* nothing cached, sh arbitrary */
+    x.h_string = std::string(); for (int i = 0; i < 8; ++i) x.sh[i] = nondet_int();
+  } else if (kind == 1) {                /* valid cache */
+    std::string f = x.getFullString(); x.h_string = f.substr(0, 16); for (int i = 0; i < 8; ++i) x.sh[i] = x.h[i];
+  } else {                               /* stale cache: cached for other words, any 16 characters */
+    std::string t; for (int i = 0; i < 16; ++i) { char c = nondet_char(); __CPROVER_assume(c != 0); t += c; }
+    x.h_string = t; bool differs = false;
+    for (int i = 0; i < 8; ++i) { x.sh[i] = nondet_int(); if (x.sh[i] != x.h[i]) differs = true; }
+    __CPROVER_assume(differs);
+  }
+}
+static void check_inv(const hash_t &x, const char *what) {
+  bool same = true; for (int i = 0; i < 8; ++i) if (x.sh[i] != x.h[i]) same = false;
+  if (!x.h_string.empty() && same) {
+    std::string f = x.getFullString();
+    size_t k = nondet_ulong(); __CPROVER_assume(k < 16);
+    __CPROVER_assert(x.h_string.size() == 16 && x.h_string[k] == f[k], "cache invariant: a cached short string that counts as valid is the short string of the current value");
+  }
+}
+extern "C" void h_cache_invariant() {
+  hash_t a, b; any_inv_state(a); any_inv_state(b);
+#ifndef VERIF_OP
+#define VERIF_OP 0
+#endif
+#if VERIF_OP == 0
+  hash_t c(a); check_inv(c, "copy constructor"); check_short(c, "copy");
+#elif VERIF_OP == 1
+  a = b; check_inv(a, "operator="); check_short(a, "assigned");
+#elif VERIF_OP == 2
+  a ^= b; check_inv(a, "operator^="); check_short(a, "after ^=");
+#elif VERIF_OP == 3
+  a.clear(); check_inv(a, "clear"); check_short(a, "cleared");
+#elif VERIF_OP == 4
+  hash_t c = a ^ b; check_inv(c, "operator^"); check_short(c, "a ^ b");
+#else
+  std::string s = a.getString(); check_inv(a, "getString"); check_short(a, "after getString");
+#endif
+#ifdef CANARY
+  __CPROVER_assert(a.h[0] != 5, "canary");
+#endif
+}
+
 extern "C" void h_short_combined() {
   hash_t a, b; any_hash(a); any_hash(b);
   hash_t c = a ^ b;
@@ -361,5 +411,12 @@ def build(ctx):
             unwind=74, object_bits=12, min_obligations=mino, functions=fns, canary='CANARY', canary_label='canary',
             strength='proof', timeout=600,
             note='all loops have constant trip counts (8 words, 4 bytes, <= 64 characters); unwound with unwinding assertions',
+            replay=replaylib.replay_hash_t))
+    for op, opname in enumerate(['copy-construct', 'assign', 'xor-assign', 'clear', 'xor', 'getString']):
+        groups.append(Group(
+            name='hash_t/cache_invariant/' + opname, sources={'hash_t.cpp': src}, entry='h_cache_invariant', lang='cpp',
+            unwind=74, object_bits=12, min_obligations=4, functions=fns, canary='CANARY', canary_label='canary',
+            defines=['VERIF_OP=%d' % op], strength='proof', timeout=900,
+            note='inductive step of the cache representation invariant; constant-trip loops fully unwound',
             replay=replaylib.replay_hash_t))
     return groups
